@@ -332,6 +332,12 @@ func (am *AccountingManager) StopSession(sessionID string, terminateCause uint32
 		am.sessionsMu.Unlock()
 		return fmt.Errorf("session start in progress: %s", sessionID)
 	}
+	if session.StopPending {
+		// Another StopSession for this session is already under way (it deletes the session
+		// when it is done): a second one would send a second Accounting-Stop.
+		am.sessionsMu.Unlock()
+		return fmt.Errorf("session stop already in progress: %s", sessionID)
+	}
 
 	// Mark as stop pending for crash recovery
 	session.StopPending = true
